@@ -141,6 +141,8 @@ BufferIsReadable == Buffered = readable
 \* p.err / p.breakErr are among the errors given
 ErrGiven == /\ (err = None) = (cgiven = {}) /\ (err # None => err \in cgiven)
             /\ (berr = None) = (bgiven = {}) /\ (berr # None => berr \in bgiven)
+\* Pipe.Err(): breakErr if set, else err; Done(): closed by the first close / break
+ErrQueryOK == ErrVerdict(IF berr # None THEN berr ELSE err) = "ok"
 \* a goroutine sleeps in c.Wait only while Read has nothing to return
 NoLostWakeup == rstate = "wait" => ~CanReturn
 
